@@ -188,6 +188,15 @@ def ops_for(st, bd, level):
         if len(S) < nt or True:
             ops.append((f'restrict({list(S)})', lambda m, S=S: m.restrict(np.array(S, dtype=np.int32), return_mapping=True),
                         j_restrict))
+        if len(S) >= 2 and not cheap:
+            # the same subset as a descending int64 array (cells come in the given order) and as a list; every carried
+            # tag follows the cells
+            R = tuple(S[::-1])
+            ops.append((f'restrict({list(R)} descending int64)', lambda m, R=R: m.restrict(np.array(R, dtype=np.int64), return_mapping=True),
+                        lambda m0, res, bad, out, R=R: j_restrict(m0, res, bad, out, S=R)))
+            # (a list is a collection of selections: the library reduces it to the ascending set of cells)
+            ops.append((f'restrict(list {list(R)})', lambda m, R=R: m.restrict([int(c) for c in R], return_mapping=True),
+                        lambda m0, res, bad, out, R=R: j_restrict(m0, res, bad, out, S=tuple(sorted(R)))))
         if len(S) < nt:
             ops.append((f'remove_elements({list(S)})',
                         lambda m, S=S: (m.remove_elements(np.array(S, dtype=np.int32)), None),
@@ -249,6 +258,29 @@ def ops_for(st, bd, level):
                         seen[kk] = v
                 out.outcome(('join', len(A), len(B)))
             ops.append((f'restrict({list(A)})+restrict({list(B)})', thunk, j_join))
+            if len(B) >= 2 and len(ops) % 2 == 0:
+                # '@' chained on one of its own results (which stores vertices above its highest used index)
+                def thunk_c(m, A=A, B=B):
+                    a = m.restrict(np.array(A, dtype=np.int32))
+                    b1 = m.restrict(np.array(B[:1], dtype=np.int32))
+                    b2 = m.restrict(np.array(B[1:], dtype=np.int32))
+                    first = a @ b1
+                    return first[0] @ b2, first, [a, b1, b2]
+
+                def j_chain(m0, res, bad, out, A=A, B=B):
+                    lst, first, parts = res
+                    k0 = cell_keys(m0, kind)
+                    want = [[k0[c] for c in A], [k0[c] for c in B[1:]]]
+                    if len(lst) != 2 or not np.array_equal(lst[0].p, lst[1].p):
+                        bad('matmul-shared-p', "(a @ b)[0] @ c does not return two meshes over one vertex array")
+                        return
+                    for k_, (mm, w) in enumerate(zip(lst, want)):
+                        if cell_keys(mm, kind) != w:
+                            bad('matmul-cells', f"(a @ b)[0] @ c: the cells of result {k_} are not the cells of its operand "
+                                f"(as coordinate sets)")
+                            return
+                    out.outcome(('matmul-chain', len(A), len(B)))
+                ops.append((f'(restrict({list(A)}) @ restrict({list(B[:1])}))[0] @ restrict({list(B[1:])})', thunk_c, j_chain))
             if len(ops) % 3 == 0:
                 # the same two parts as meshes that keep the WHOLE vertex array (unused vertices, also trailing ones)
                 def thunk_u(m, A=A, B=B):
